@@ -19,6 +19,8 @@ func init() {
 	rt.Register("C09_exported_mul", VerifHarness_C09_exported_mul)
 	rt.Register("C09_exported_muladd", VerifHarness_C09_exported_muladd)
 	rt.Register("C09_platformLE", VerifHarness_C09_platformLE)
+	rt.Register("C09_inplace", VerifHarness_C09_inplace)
+	rt.Register("C09_inplace_row", VerifHarness_C09_inplace_row)
 	rt.Register("C09_size_mismatch", VerifHarness_C09_size_mismatch)
 }
 
@@ -192,5 +194,32 @@ func VerifHarness_C09_platformLE() {
 		}
 		rt.Assert(uint16(out[i]) == want, "mulSlice/mulAndAddSlice: out == c*in")
 		rt.Assert(in[i] == in0[i], "mulSlice/mulAndAddSlice: input unchanged")
+	}
+}
+
+// In-place use (Matrix.scaleRow calls mulSlice(c, row, row)): with in and out
+// the same buffer every word is multiplied exactly once.
+func VerifHarness_C09_inplace() {
+	n := 2 * rt.Choice("words", 36)
+	c := T(rt.U16("c"))
+	buf := rt.Bytes("buf", n)
+	buf0 := append([]byte(nil), buf...)
+	MulByteSliceLE(c, buf, buf)
+	for i := 0; i < n/2; i++ {
+		rt.Assert(word(buf, i) == rt.GFMul(uint16(c), word(buf0, i)), "in place: word == c * previous word")
+	}
+}
+
+func VerifHarness_C09_inplace_row() {
+	n := rt.Choice("words", 36)
+	c := T(rt.U16("c"))
+	row := make([]T, n)
+	for i := range row {
+		row[i] = T(rt.U16("r" + string(rune('A'+i))))
+	}
+	row0 := append([]T(nil), row...)
+	mulSlice(c, row, row)
+	for i := range row {
+		rt.Assert(uint16(row[i]) == rt.GFMul(uint16(c), uint16(row0[i])), "scaleRow's in-place mulSlice: element == c * previous element")
 	}
 }
